@@ -233,6 +233,10 @@ pub fn oracle(rng: &mut Rng, n: usize, tier: &str) -> OracleReport {
     for _ in 0..n {
         cases.push(trees::random_tree(rng, 60, 100));
     }
+    // serializations longer than the 2,000,000-byte default cap of node_to_bytes: an explicit limit above it
+    // must be honoured as given
+    cases.push(T::pair(T::Atom(vec![0x41; 2_000_000]), T::Atom(vec![5])));
+    cases.push(T::Atom(vec![0x42; 2_000_001]));
     for t in cases {
         rep.evaluations += 1;
         let expect = trees::encode(&t);
@@ -246,7 +250,12 @@ pub fn oracle(rng: &mut Rng, n: usize, tier: &str) -> OracleReport {
         let ser = match node_to_bytes_limit(&a, node, big) {
             Ok(b) => b,
             Err(e) => {
-                rep.fail("ser_total", format!("tree={} error {:?}", trees::to_hex(&t), err_kind(&e)));
+                let hx = trees::to_hex(&t);
+                let hx = if hx.len() > 200 { format!("<{} hex digits: {}…>", hx.len(), &hx[..48]) } else { hx };
+                rep.fail("ser_total", format!("tree={} error {:?}", hx, err_kind(&e)));
+                // the limit given is above the serialized length: also a failure of "a limit of at least the
+                // length gives the unlimited serialization" (C29)
+                rep.fail("limited_ser", format!("tree={} limit={} len={} got Err({:?})", hx, big, expect.len(), err_kind(&e)));
                 continue;
             }
         };
